@@ -788,3 +788,11 @@ func (r *run) regexpSymbolic(re *regexp.Regexp, s sval) value {
 	}
 	panic(engineError{"regexp match over symbolic bytes for pattern " + re.String()})
 }
+
+func init() {
+	// default clock: a fixed instant; harness models override it
+	intrinsics["time.Now"] = func(fr *frame, args []value) value {
+		return zero(fr.fn.Signature.Results().At(0).Type())
+	}
+	intrinsics["time.Since"] = func(fr *frame, args []value) value { return mkBV(64, 0) }
+}
